@@ -5,6 +5,16 @@ ROOT = os.path.dirname(os.path.dirname(os.path.abspath(__file__)))
 
 # id -> (category, technique, level text, level note, design ref)
 CHECKS = {
+ "C01": ("exploration",
+         "reference-model differential: generated programs x trees, independent reference interpreter, graph isomorphism",
+         "Generated DSL programs (whole statement/expression grammar, nested blocks, shorthands, globals, injected run-time faults) are executed in strict mode on generated and corpus Python trees and compared with an independent interpreter written from the language reference: Ok/Err must agree and graphs must be equal up to node renumbering. Exploration (sampling of an unbounded program space) is the right level: the property is a refinement claim against a prose reference; a differential against an executable model finds evaluation-rule slips that fixed examples miss, but cannot prove absence.",
+         "Trusted: tree-sitter 0.24 query engine and Python grammar, regex crate, proptest, the reference interpreter (harness/src/interp.rs, stdlib.rs). Constructs the reference leaves unspecified are excluded by the generator (DESIGN.md §4).",
+         "DESIGN.md §5 C01"),
+ "C02": ("exploration",
+         "differential testing of the two interpreters (strict vs lazy) on generated programs of the order-insensitive fragment",
+         "Generated programs inside the order-insensitive fragment are executed in both modes on the same trees and globals; strict Ok must imply lazy Ok with an isomorphic graph, a strict failure with an order-independent cause must imply a lazy failure, and neither may panic. Exploration is the right level: the two interpreters duplicate their logic, and a differential over generated programs reaches the unsampled interactions; it cannot prove equivalence.",
+         "Trusted: the generator's enforcement of the fragment (harness/src/gen.rs), graph isomorphism check (budgeted; exhausted budget counts as inconclusive), tree-sitter, proptest.",
+         "DESIGN.md §5 C02"),
  "C17": ("exploration",
          "stateful model-based property testing (proptest-driven op sequences vs BTreeMap models)",
          "Generated operation histories (<=200 ops, biased to spill the 8-slot inline edge vector, repeat sinks and conflict attributes) are run against the real containers and a BTreeMap model; every return value and periodic full scans are compared. Exploration is the right level: the contract is over all histories of a small pure data structure, where a model differential finds ordering/spill/overwrite slips quickly; it does not prove absence.",
